@@ -65,7 +65,7 @@ V_HARNESS(h_page_title)
   for (k = 0; k < NPOOL; k++) {
     POOL[k].function = (enum ttx_page_function) ((int) (in_u8() % 19) - 4);
     POOL[k].national = in_u8() & 7; POOL[k].pgno = 0x100 + (in_u16() % 0x800);
-    for (i = 0; i < 46; i += 15) {                            /* a few of the 46 titles carry symbolic links and text, the others are zero */
+    for (i = 0; i < 46; i += 30) {                            /* a few of the 46 titles carry symbolic links and text, the others are zero */
       POOL[k].data.ait.title[i].link.pgno = in_u16(); in_bytes(POOL[k].data.ait.title[i].text, 12); }
   }
   pgno = 0x100 + (in_u16() % 0x800); subno = in_u16();          /* a valid page number (vbi_pgno): the zero entries of the AIT pages can then never match,
